@@ -159,14 +159,14 @@ let render_motif (m : (string, string, string) motif) : string =
 let exc_name = function
   | ValueError -> "ValueError" | TypeError -> "TypeError" | OverflowError -> "OverflowError"
   | RuntimeError -> "RuntimeError" | OSError -> "OSError" | UnicodeError -> "UnicodeError"
-  | AttributeError -> "AttributeError" | NameError -> "NameError"
+  | AttributeError -> "AttributeError" | NameError -> "NameError" | KeyError -> "KeyError"
 
 let exc_of_name = function
   | "ValueError" -> Some ValueError | "TypeError" -> Some TypeError | "OverflowError" -> Some OverflowError
   | "RuntimeError" -> Some RuntimeError
   | "OSError" | "FileNotFoundError" | "IsADirectoryError" | "NotADirectoryError" | "PermissionError" | "IOError" -> Some OSError
   | "UnicodeError" | "UnicodeEncodeError" | "UnicodeDecodeError" -> Some UnicodeError
-  | "AttributeError" -> Some AttributeError | "NameError" -> Some NameError
+  | "AttributeError" -> Some AttributeError | "NameError" -> Some NameError | "KeyError" -> Some KeyError
   | _ -> None
 
 (* result -> (visible text, tail outcome for loads) *)
@@ -261,9 +261,19 @@ let make_core (tbl : (string, string) Hashtbl.t) : (string, string, string, stri
         let d = string_of_codes desc in
         let (mode, hex) = match String.index_opt d '|' with
           | Some i -> (String.sub d 0 i, String.sub d (i + 1) (String.length d - i - 1)) | None -> (d, "") in
+        (* items: "ctor!" first when a call of the stream failed inside the constructor of the reader;
+           "<item>!" when one failed during that next(); "stop" = the reader ended *)
         match find (Printf.sprintf "read_faulty~%s~%s~%s~%s" (fmt_txt f) (tag a) mode (hex_or_dash hex)) with
-        | "P" -> [RPanic]
-        | v -> parse_items v);
+        | "P" -> (false, [(Some RPanic, false)])
+        | "none" -> (false, [])
+        | v ->
+            let toks = String.split_on_char '&' v in
+            let (ctor, toks) = match toks with "ctor!" :: r -> (true, r) | r -> (false, r) in
+            (ctor, List.map (fun t ->
+                 let n = String.length t in
+                 let (t, fired) = if n > 0 && t.[n - 1] = '!' then (String.sub t 0 (n - 1), true) else (t, false) in
+                 if t = "stop" then (None, fired)
+                 else match parse_items t with [it] -> (Some it, fired) | _ -> failwith ("bad reader item " ^ t)) toks));
     c_lazy_next = (fun id j ->
         match find (Printf.sprintf "lnext~%d~%d" (int_of_nat id) (int_of_nat j)) with
         | "stop" -> None
@@ -295,9 +305,15 @@ let file_of_mode mode data : file_arg =
   | "q" | "e" -> FileMissing
   | "x" -> FileNoRead
   | "t" | "fx" -> FileNotBytes
-  | "o" -> FileBroken
+  | "o" -> FileFaulty (FTooMany, codes_of_string ("o|" ^ (if data = "-" then "" else data)))   (* every read() returns too much *)
   | "r0" | "fe" -> FileData []
-  | m when String.length m > 1 && m.[0] = 'X' -> FileFaulty (codes_of_string (m ^ "|" ^ (if data = "-" then "" else data)))
+  | m when String.length m > 1 && m.[0] = 'X' ->
+      (* what read() does wrong: k raises KeyError, p PermissionError(13), o OSError without errno, s / n return
+         str / None, m returns too many bytes, c closes the file (later reads raise ValueError) *)
+      let fl = match m.[1] with
+        | 'k' -> FRaises KeyError | 'p' | 'o' -> FRaises OSError | 's' | 'n' -> FNotBytes | 'm' -> FTooMany
+        | 'c' -> FRaises ValueError | _ -> failwith ("bad file mode " ^ m) in
+      FileFaulty (fl, codes_of_string (m ^ "|" ^ (if data = "-" then "" else data)))
   | m when String.length m > 2 && m.[0] = 'f' && (m.[1] = 'b' || m.[1] = 'u' || m.[1] = 'z' || m.[1] = 'k') ->
       FileData (zl (drop (num ()) raw))
   | m when String.length m > 2 && m.[0] = 'f' && m.[1] = 'n' -> FileData (zl (drop_lines (num ()) raw))
